@@ -1437,6 +1437,10 @@ class ExprMixin:
             raise ExtractionError('%s: cast kind %s' % (self.fi.cname, ck))
         if k == 'UnaryOperator':
             op = n['opcode']
+            if op == '-' and self.ty(n).name == 'double':
+                # unary minus on the scalar type: a macro (plain -(a) by default), so that a block can hide it from
+                # cbmc's simplifier, which aborts on some products of negated rationals (DESIGN.md W11)
+                return 'BS_NEG(%s)' % self.expr(ks[0])
             if op in ('!', '-', '+', '~'):
                 return '(%s%s)' % (op, self.wrap(self.expr(ks[0])))
             if op in ('++', '--'):
